@@ -11,6 +11,31 @@ CHECKS = {
    note='Trusted: controlled Lock/Condition model (FIFO notify, barging allowed); double release of a valid token is outside the statement.'),
 }
 
+MGR_NOTE = 'Trusted base: deterministic scheduler + DetExecutor model of ThreadPoolExecutor (FIFO queue, lazy workers, waiters released before done-callbacks), FakeS3 + fake client validating every call with botocore\'s ParamValidator against the installed S3 model, upload-body protocol recorded from real botocore, FaultyOSUtils over a real scratch directory. Bounds: small sizes (<=13 bytes), deviation bound stated in the evidence.'
+def mgr(level, design, text, technique=None):
+    return dict(level=level, design=design, text=text, note=MGR_NOTE,
+                technique=technique or 'stateless exhaustive exploration of the real TransferManager under a deterministic scheduler: all thread schedules and environment answers (faults, short reads, retries, cancel points) within a deviation bound, plus exhaustive sequential enumeration of small input/config domains with the inline executor; oracles on the execution trace')
+CHECKS.update({
+ 'C01': mgr('model_checking', 'DESIGN.md 3/C01', 'All uploads/copies over source kinds x sizes 0..13 x thresholds x chunk sizes x part limits are executed and the object assembled by the fake S3 compared with the source; every client-level body retry cut point (both botocore body protocols); all schedules of 3-part transfers within the preemption bound.'),
+ 'C02': mgr('model_checking', 'DESIGN.md 3/C02', 'All downloads over destination kinds x sizes x thresholds x chunk/io sizes x short-read patterns; every placement of up to 2-3 retryable stream faults combined with short reads; all completion orders of ranged parts within the bound; destination bytes compared with the object.'),
+ 'C03': mgr('fault_enumeration', 'DESIGN.md 3/C03', 'One fault (and every pair) at every S3 call (before/after effect), source read, destination open/seek/write/close/rename, stream read and user callback of every transfer type/mode; result() must raise one of the injected failures; also under schedules with concurrency 2.'),
+ 'C04': mgr('model_checking', 'DESIGN.md 3/C04', 'All 2^7 settings of the seven limits in {1,2} at deviation bound 0 (every non-preemptive schedule), all-ones/all-twos at bound 1-2, single faults, cancel and shutdown(cancel) at every scheduling point, re-entrant subscribers on every outcome path; the scheduler reports deadlock (no enabled thread) and livelock (step horizon).'),
+ 'C05': mgr('model_checking', 'DESIGN.md 3/C05', 'Every fault position and cancellation point of multipart uploads and copies (3 source kinds), sequentially and under schedules with concurrency 2-3; oracle on the fake S3 multipart log (exactly one of complete/abort, ordering of abort vs other requests).'),
+ 'C06': mgr('model_checking', 'DESIGN.md 3/C06', 'Path downloads (single/ranged, destination absent/pre-existing): the destination path and directory are inspected at every scheduling point of every explored execution (each a crash point) under every single/pair of faults and every cancellation point.'),
+ 'C07': mgr('model_checking', 'DESIGN.md 3/C07', 'future.cancel(), shutdown(cancel=True,cancel_msg), with-block exceptions and Ctrl-C at blocking waits injected at every scheduling point of every transfer type; outcome type/message, zero requests for unstarted transfers, entry point returns.'),
+ 'C08': mgr('model_checking', 'DESIGN.md 3/C08', 'Two recording subscribers (first on_done raises) on every transfer type under success, every fault position and cancel at every point (including done announced from two threads); counts, ordering vs S3 requests, non-blocking result() inside on_done.'),
+ 'C09': mgr('model_checking', 'DESIGN.md 3/C09', 'Progress values summed for every successful execution over body rewinds at every cut point (both body protocols), retryable stream faults at every read, all small sizes; running sum within [0,size].'),
+ 'C10': mgr('model_checking', 'DESIGN.md 3/C10', '2-3 concurrent mixed transfers under limit assignments in which exchangeable limits differ; in-flight requests, queue occupancy per stage, write exclusivity and order evaluated over every explored execution; maxima observed are reported.'),
+ 'C11': mgr('model_checking', 'DESIGN.md 3/C11', 'Stream uploads and non-seekable downloads (1-2 concurrent) under small chunk/window/io-queue limits; bytes buffered and window span evaluated over every explored execution.'),
+ 'C16': dict(level='model_checking', design='DESIGN.md 3/C16', note='Trusted: parts are disjoint and attempts start at the part\'s first byte (what GetObjectTask does).',
+   technique='explicit-state BFS over the real DeferQueue for every delivery history (chunks of any size, restarts, interleaved parts) to a length bound + end-to-end manager runs under stream faults',
+   text='Every delivery history up to the bound is replayed on the real DeferQueue; released writes must be contiguous, in order, each byte once, nothing withheld once contiguous; end-to-end non-seekable downloads under C02\'s fault sequences.'),
+ 'C17': dict(level='model_checking', design='DESIGN.md 3/C17', note='"moves forward" read as: done states are absorbing. Shared fields are scheduling points in the interleaving part.',
+   technique='explicit-state BFS over the real TransferCoordinator/TransferFuture against a reference state machine + exhaustive schedule exploration of 2-3 single-operation threads (linearizability against sequential orders)',
+   text='All sequences of 13 public operations to the depth bound compared with a reference machine after every step; every schedule within the bound of 2-3 concurrent operations must end in the state of some sequential order; done() never regresses.'),
+ 'C18': mgr('model_checking', 'DESIGN.md 3/C18', '2-3 transfers of different types on one manager, one failing (each fault site) or cancelled, followed by shutdown / with-exit / a fresh transfer; nothing happens after shutdown returns, bystanders succeed.'),
+})
+
 def main():
     checks = []
     for p in props:
